@@ -1,7 +1,7 @@
 (** Dispatch table of the extracted correspondence driver: each model function wrapped
     as [val -> val].  The harness (harness/model.py) reads the ids and names from the
     comments of [dispatch], so this file is the single registry. *)
-From SE Require Import Base Codecs Fat Stream Transcode.
+From SE Require Import Base Codecs Fat Stream Transcode Cue.
 From Coq Require Import Floats.PrimFloat Floats.SpecFloat Floats.FloatOps.
 
 (** floats travel as (kind sign mantissa exponent): kind 0 = finite (value = +-m*2^e,
@@ -79,6 +79,15 @@ Definition unsrc (v : val) : src :=
   | _ => {| sbytes := []; swidth := 1; schans := 1; sbig := false |}
   end.
 
+Definition vopt (o : option (list Z)) : val := match o with None => VL [VI 0] | Some s => VL [VI 1; vlistZ s] end.
+Definition vtrack (t : ctrack) : val :=
+  VL [VI (t_num t); vlistZ (t_mode t); vopt (t_title t);
+      VL (map (fun i => VL [VI (ix_num i); VI (ix_min i); VI (ix_sec i); VI (ix_frm i)]) (t_indices t))].
+Definition vcue (c : cue) : val := VL [vlistZ (c_bin c); VL (map vtrack (c_tracks c))].
+Definition vwindow (w : window) : val :=
+  VL [vopt (w_title w); VI (w_number w); VI (w_off w); VI (w_size w); VI (w_samples w)].
+Definition unlines (v : val) : list (list Z) := map unVLZ (unVL v).
+
 Definition dispatch (id : Z) (a : val) : val :=
   match id with
   | 101 (* fast_akai_to_ascii_byte *) => vres VI (fast_akai_to_ascii_byte (unVI a))
@@ -113,5 +122,14 @@ Definition dispatch (id : Z) (a : val) : val :=
   | 401 (* transcode *) =>
       vres vlistZ (transcode (unVI (nth_arg a 0)) (map unsrc (unVL (nth_arg a 1)))
                              (unVI (nth_arg a 2)) (unVI (nth_arg a 3)))
+  | 501 (* parse_cue_sheet *) => vres vcue (parse_cue_sheet (unlines a))
+  | 502 (* cue_route_windows *) =>
+      vres (fun c => VL [VI (match cue_route c with RSampler => 0 | RCdda => 1 end);
+                         VL (map vwindow (cdda_windows c (unVI (nth_arg a 1))))])
+           (parse_cue_sheet (unlines (nth_arg a 0)))
+  | 503 (* track_pcm *) =>
+      vlistZ (track_pcm (unVLZ (nth_arg a 0))
+                {| w_title := None; w_number := 0; w_off := unVI (nth_arg a 1); w_size := unVI (nth_arg a 2); w_samples := 0 |})
+  | 504 (* is_ascii_text *) => vbool (is_ascii_text (unVLZ a))
   | _ => vbad
   end.
